@@ -140,6 +140,21 @@ def validate(spec: ModelSpec, c: tv.Compiled, tally: decide.Tally, vectorized: b
                                            f"{type(e).__name__}: {e}"))
         return res
 
+    # the function OBJECT must compute what the emitted TEXT says (the symbolic run below executes the text): execute the
+    # text concretely in a fresh namespace on the same arguments
+    if c.backend != 'fortran' and c.src and run_symbolic is None:
+        try:
+            ns = {'__name__': '__emitted_text__'}
+            exec(compile(c.src, '<emitted text>', 'exec'), ns)
+            txt = np.asarray(_to_numpy(ns[c.fname](*[_copy_arg(a) for a in c.args])), dtype=float).reshape(-1)
+            if txt.shape != shadow.shape or not np.allclose(txt, shadow, rtol=1e-6, atol=1e-9, equal_nan=True):
+                res['violations'].append(dict(kind='function-object-differs-from-its-text',
+                                              what=f"the returned function evaluates to {shadow.tolist()} on the arguments "
+                                                   f"returned with it, the text emitted for it to {txt.tolist()}"))
+                return res
+        except Exception as e:   # noqa
+            res['inconclusive'].append(dict(kind='text-exec', what=f"{type(e).__name__}: {e}"))
+
     # (b) symbolic run: once per feasible path (helper defs with Python branches, argmin ... fork) ----------
     y_sym = symx.symarray('y', ny)
     y_names = [f"y_{j}" for j in range(ny)]
